@@ -30,6 +30,7 @@ class Kernel:
         self.proc = {}
         self.calls = 0
         self.crash_at = None
+        self.fail_at = None
         self.errors = 0
         self.mac = 0
         self._saved = None
@@ -102,6 +103,11 @@ class Kernel:
         if self.crash_at is not None and self.calls == self.crash_at:
             self.crash_at = None
             raise Crash(' '.join(cmd))
+        if self.fail_at is not None and self.calls == self.fail_at and cmd[0] in ('ip', 'brctl'):
+            # a transient failure of the command itself (out of memory, netlink busy): nothing was changed
+            self.fail_at = None
+            self.transient_failures = getattr(self, 'transient_failures', 0) + 1
+            self._fail(cmd, 2, 'RTNETLINK answers: Cannot allocate memory (injected)')
 
     def _fail(self, cmd, rc=1, out=''):
         self.errors += 1
